@@ -384,6 +384,21 @@ pub fn run_history_ext(line: &str, work: &Path, detail: bool, with_mem: bool) ->
                 if p[2] == "t" { Some((p[1].to_string(), p[0].parse().unwrap())) } else { None }
             })
             .collect();
+        // table name -> primary-key column (catalog text `id:name:t:col/ty/nn/pk,...`)
+        let pks: BTreeMap<String, String> = cat
+            .iter()
+            .filter_map(|e| {
+                let p: Vec<&str> = e.splitn(4, ':').collect();
+                if p.len() < 4 || p[2] != "t" {
+                    return None;
+                }
+                p[3].split(',').find_map(|c| {
+                    let f: Vec<&str> = c.split('/').collect();
+                    if f.len() == 4 && f[3] == "1" { Some((p[1].to_string(), f[0].to_string())) } else { None }
+                })
+            })
+            .collect();
+        let mut kseq = vec![];
         let mut tabs = vec![];
         let mut cnts = vec![];
         let mut phys_txt = vec![];
@@ -398,6 +413,18 @@ pub fn run_history_ext(line: &str, work: &Path, detail: bool, with_mem: bool) ->
             if let Outcome::Ok(_) = &o {
                 let c = disk.sql(&format!("select count(*) from {n}"));
                 cnts.push(format!("{n}={}", outcome_text(&c)));
+                // the ordered scan of a keyed table: key column in the order returned (the planner
+                // drops the sort on the disk engine and relies on the merging scan)
+                if let Some(pk) = pks.get(n) {
+                    match disk.sql(&format!("select {pk} from {n} order by {pk}")) {
+                        Outcome::Ok(rows) => {
+                            let ks: Vec<String> = rows.iter().map(|r| r.first().cloned().unwrap_or_default()).collect();
+                            kseq.push(format!("{n}={}", ks.join("|")));
+                        }
+                        Outcome::Err(_) => kseq.push(format!("{n}=!err")),
+                        Outcome::Panic(_) => kseq.push(format!("{n}=!panic")),
+                    }
+                }
             }
             if let (Some(tid), Some(nc)) = (ids.get(n), ncols.get(n)) {
                 match disk.phys(*tid, *nc) {
@@ -507,8 +534,9 @@ pub fn run_history_ext(line: &str, work: &Path, detail: bool, with_mem: bool) ->
         let _ = snap_before;
         let rs_txt: Vec<String> = snap_rs.iter().map(|(t, r)| format!("{t}.{r}")).collect();
         lines.push(format!(
-            "H{id}.{k}\tout={out}{mem_fields}\ttabs={}\tcnt={}\tman={}\tcat={}\trs={}\tdv={}\tphys={}",
+            "H{id}.{k}\tout={out}{mem_fields}\ttabs={}\tkseq={}\tcnt={}\tman={}\tcat={}\trs={}\tdv={}\tphys={}",
             tabs.join(";"),
+            kseq.join(";"),
             cnts.join(";"),
             man.join(" "),
             cat.join(" "),
